@@ -129,7 +129,10 @@ Check(r) ==
          /\ Same(pre, post, All \ {"st", "derived"})
          /\ \A o \in 1..N : o # d => Same(docs[o], r.docs[o], All)
     [] r.ev \in {"Import", "Open", "Close", "Put", "Peer", "Policy", "Remove"} ->
-         Target(r) /\ Frame(r, r.d) /\ Global(r)
+         /\ Target(r) /\ Frame(r, r.d) /\ Global(r)
+         \* a document that is not there (never created, or removed) stays unobservable whatever request names it, until it
+         \* is created (again): C16's "once removed, nothing of it can be observed; re-creating it yields an empty document"
+         /\ (Prop = "C16" /\ r.ev # "Import" /\ Gone(docs[r.d])) => Gone(r.docs[r.d])
     [] r.ev = "Match" -> Prop = "C15" => r.res = Matches(r.pol, r.key)
     [] r.ev = "Filter" -> Prop = "C15" => (r.res = "ok" /\ r.back_kind = r.kind /\ r.back_bytes = r.bytes)
     [] OTHER -> FALSE
